@@ -560,7 +560,11 @@ class Generator:
             strs = [s[0] + s[1:][::-1] for s in strs]
             if r.random() < 0.3:
                 strs = strs[:-1]
-            return self._call("rot.synth_circuit_from_stabilizers", [self.lit(Lt.lst(strs))])
+            if r.random() < 0.2:
+                strs = strs + [strs[0]]
+            kw = [[k, self.lit(r.random() < 0.5)] for k in ("allow_redundant", "allow_underconstrained", "invert")
+                  if r.random() < 0.4]
+            return self._call("rot.synth_circuit_from_stabilizers", [self.lit(Lt.lst(strs))], kw)
         if which < 0.4:
             a = self.need_qc(ex, n, False)
             b = a if r.random() < 0.3 else self.need_qc(ex, n, False)
